@@ -195,11 +195,37 @@ def main(argv=None):
     # a case may ask for its own floating-point mode ("x64" key); one pool per mode
     for mode in sorted({bool(c.get("x64", x64)) for c in cases}):
         items = [(i, c) for i, c in enumerate(cases) if bool(c.get("x64", x64)) == mode]
-        with ctx.Pool(min(nw, len(items)), initializer=_init_worker, initargs=(modname, mode)) as pool:
-            for idx, res in pool.imap_unordered(_work, items, chunksize=1):
-                if "error" in res:
-                    errors.append((idx, res))
-                results[idx] = res
+        # a worker that dies (e.g. killed by the kernel when memory runs out) must not hang the check: the cases that were
+        # lost are run again with half as many workers; a case that kills a lone worker is a harness error
+        from concurrent.futures import ProcessPoolExecutor, as_completed
+        from concurrent.futures.process import BrokenProcessPool
+
+        todo, w = items, min(nw, len(items))
+        while todo:
+            lost = []
+            ex = ProcessPoolExecutor(max_workers=min(w, len(todo)), mp_context=ctx, initializer=_init_worker, initargs=(modname, mode))
+            futs = {ex.submit(_work, it): it for it in todo}
+            try:
+                for f in as_completed(futs):
+                    try:
+                        idx, res = f.result()
+                    except BrokenProcessPool:
+                        lost.append(futs[f])
+                        continue
+                    if "error" in res:
+                        errors.append((idx, res))
+                    results[idx] = res
+            finally:
+                ex.shutdown(wait=False, cancel_futures=True)
+            if lost:
+                if w == 1:
+                    errors.append((lost[0][0], {"error": "a worker process died while running this case alone (out of memory?)", "case": lost[0][1]}))
+                    for it in lost:
+                        results[it[0]] = {"error": "not run"}
+                    break
+                w = max(1, w // 2)
+                sys.stderr.write(f"note: a worker process died; running {len(lost)} case(s) again with {w} worker(s)\n")
+            todo = lost
 
     if errors:
         for idx, res in errors[:5]:
